@@ -17,7 +17,8 @@
 (*         ometh          method of another, un-annotated type             *)
 (*         init           func init()                                      *)
 (*         pkgvar         var _ = func() int { S; return 0 }()             *)
-(*   stmt  the candidate statement, via the parameter/global p or the      *)
+(*   stmt  (starPlain: `*r = v` on a plain *int named like the receivers)   *)
+(*         the candidate statement, via the parameter/global p or the      *)
 (*         receiver r, p spelled *T or T, inside a nesting construct,      *)
 (*         the type written with spelling sp (C13).                        *)
 (*                                                                         *)
@@ -33,6 +34,8 @@
 (*   CtorAnyPkg    - the constructor exemption ignores which package the   *)
 (*                   enclosing function belongs to                         *)
 (*   NoUnalias     - a use spelled through a type alias is invisible       *)
+(*   CtorAnyType   - a constructor of one type is exempt for every          *)
+(*                   annotated type of its package                         *)
 (***************************************************************************)
 EXTENDS Integers, Sequences, FiniteSets, TLC, Json
 
@@ -47,8 +50,10 @@ vars == <<prog, fi, ci, ph, cur, recv, diags>>
 
 Kinds  == {"ctor1", "ctor2", "other", "pmeth", "vmeth", "cmeth", "ometh", "init", "pkgvar"}
 Stmts  == {"assignX", "assignM", "multiX", "compoundX", "compoundM", "incX", "decX", "incM", "indexXs", "indexMp",
-           "readX", "onU", "local", "recvAssign", "recvInc", "recvDec"}
-Nests  == {"none", "if", "else", "for", "range", "switch", "select", "funclit", "defer", "go", "label"}
+           "readX", "onU", "local", "recvAssign", "recvInc", "recvDec", "starPlain", "starPlainInc",
+           "onT2"}   \* q.X = v with q *T2, a second @immutable type of d with `@constructor NewT2` (iff T is @immutable)
+Nests  == {"none", "if", "else", "for", "range", "switch", "select", "funclit", "defer", "go", "label",
+           "funcassign", "funcvar", "funcarg", "funcfield", "block", "ifinit", "typeswitch"}
 Spells == {"direct", "alias", "alias3", "ptralias", "rename", "paren"}
 
 Anns == [imm : BOOLEAN, ctors : {<<>>, <<"NewT">>, <<"NewT", "MakeT">>}, mut : BOOLEAN, noise : BOOLEAN]
@@ -65,7 +70,9 @@ Valid(c, pkg) ==
   /\ (c.kind = "cmeth" <=> c.stmt \in {"recvInc", "recvDec"})
   /\ (c.kind = "cmeth" => c.via = "p" /\ c.ptr)
   /\ (c.via = "r" => c.ptr = (c.kind = "pmeth"))
-  /\ (c.stmt \in {"onU", "local", "recvInc", "recvDec"} => c.ptr /\ c.sp = "direct" /\ c.via = "p")
+  /\ (c.stmt \in {"onU", "onT2", "local", "recvInc", "recvDec", "starPlain", "starPlainInc"} => c.ptr /\ c.sp = "direct" /\ c.via = "p")
+  \* `*r = v` on a plain *int that is merely *named* like the receivers of the methods (all receivers are called r)
+  /\ (c.stmt \in {"starPlain", "starPlainInc"} => c.kind \in {"ctor1", "ctor2", "other", "init", "pkgvar", "ometh"})
   /\ (c.via = "r" => c.sp = "direct")
   /\ (c.sp = "ptralias" => c.ptr)
   /\ (c.sp \in {"rename", "alias3"} => pkg = "u")
@@ -74,7 +81,7 @@ FnName(c) == CASE c.kind = "ctor1" -> "NewT" [] c.kind = "ctor2" -> "MakeT" [] c
                [] c.kind = "pkgvar" -> "" [] OTHER -> "fn"
 RecvOf(c) == CASE c.kind \in {"pmeth", "vmeth"} -> "T" [] c.kind = "cmeth" -> "C" [] c.kind = "ometh" -> "O" [] OTHER -> ""
 
-WriteCode(s) == CASE s \in {"assignX", "assignM", "multiX", "recvAssign"} -> "IMM01"
+WriteCode(s) == CASE s \in {"assignX", "assignM", "multiX", "recvAssign", "onT2"} -> "IMM01"
                   [] s \in {"compoundX", "compoundM"} -> "IMM02"
                   [] s \in {"incX", "decX", "incM", "recvInc", "recvDec"} -> "IMM03"
                   [] s \in {"indexXs", "indexMp"} -> "IMM04"
@@ -88,8 +95,8 @@ Verdict(c, ann, pkg) ==
   IF /\ ann.imm
      /\ WriteCode(c.stmt) # "none"
      /\ ~(OnMutableField(c.stmt) /\ ann.mut)
-     /\ ~(pkg = "d" /\ FnName(c) \in Range(ann.ctors) /\ c.kind \in {"ctor1", "ctor2"})
-  THEN WriteCode(c.stmt) ELSE "none"
+     /\ ~(c.stmt # "onT2" /\ pkg = "d" /\ FnName(c) \in Range(ann.ctors) /\ c.kind \in {"ctor1", "ctor2"})
+  THEN WriteCode(c.stmt) ELSE "none"     \* NewT / MakeT are constructors of T, not of T2
 
 Keys(p) == UNION {{<<f, i>> : i \in 1..Len(p.files[f])} : f \in 1..Len(p.files)}
 L1(p) == {<<k[1], k[2], Verdict(p.files[k[1]][k[2]], p.ann, p.pkg)>> : k \in {k \in Keys(p) : Verdict(p.files[k[1]][k[2]], p.ann, p.pkg) # "none"}}
@@ -102,7 +109,7 @@ UniqueCtors(fs) ==
   LET all == UNION {{<<f, i>> : i \in 1..Len(fs[f])} : f \in 1..Len(fs)}
   IN \A k \in {"ctor1", "ctor2"} : Cardinality({x \in all : fs[x[1]][x[2]].kind = k}) <= 1
 
-SeqStmts == {"assignX", "incX", "readX", "assignM"}
+SeqStmts == {"assignX", "incX", "readX", "assignM", "starPlain", "onT2"}
 SeqAnns  == {a \in Anns : a.imm /\ ~a.noise /\ a.ctors # <<"NewT", "MakeT">>}
 SeqCont(pkg) == {c \in {Cont(k, s, "p", TRUE, "none", "direct") : k \in Kinds \ {"cmeth", "ometh", "ctor2"}, s \in SeqStmts} : Valid(c, pkg)}
 
@@ -154,8 +161,11 @@ Seen(c) == ~("NoUnalias" \in Deviations /\ c.sp \in {"alias", "alias3", "ptralia
 VisitVerdict(c) ==
   LET code == WriteCode(c.stmt)
       ownPkg == prog.pkg = "d" \/ "CtorAnyPkg" \in Deviations
-      exempt == ownPkg /\ cur \in Range(prog.ann.ctors)
-  IN IF ~prog.ann.imm \/ code = "none" THEN "none"
+      ctorsOfType == IF c.stmt = "onT2" /\ ~("CtorAnyType" \in Deviations) THEN {"NewT2"} ELSE Range(prog.ann.ctors)
+      exempt == ownPkg /\ cur \in ctorsOfType
+  IN IF c.stmt \in {"starPlain", "starPlainInc"}
+       THEN (IF prog.ann.imm /\ recv \in {"T", "C"} /\ ~exempt THEN (IF c.stmt = "starPlain" THEN "IMM01" ELSE "IMM03") ELSE "none")
+     ELSE IF ~prog.ann.imm \/ code = "none" THEN "none"
      ELSE IF c.stmt \in {"recvAssign", "recvInc", "recvDec"}
        THEN (IF recv \in {"T", "C"} /\ ~exempt THEN code ELSE "none")
      ELSE IF ~Seen(c) THEN "none"
